@@ -11,6 +11,12 @@ namespace Quote
     the running Python into `Params.shlexSafe` -/
 def safeByte (c : Byte) : Bool := Params.shlexSafe.contains c.toNat
 
+/-- bytes that a POSIX shell reads literally when unquoted, wherever they stand in a word:
+    ASCII letters, digits and `% + , - . / : = @ _` (hand-written, independent of the table) -/
+def posixPlain (n : Nat) : Bool :=
+  (48 ≤ n && n ≤ 57) || (65 ≤ n && n ≤ 90) || (97 ≤ n && n ≤ 122) ||
+  n == 37 || n == 43 || n == 44 || n == 45 || n == 46 || n == 47 || n == 58 || n == 61 || n == 64 || n == 95
+
 def SQ : Byte := 39   -- '
 def DQ : Byte := 34   -- "
 def SP : Byte := 32
@@ -60,5 +66,107 @@ def split : QS → Option Bytes → List Bytes → Bytes → Option (List Bytes)
 
 /-- the argument vector a POSIX shell derives from a command line, or `none` on any hazard -/
 def posixWords (s : Bytes) : Option (List Bytes) := split .U none [] s
+
+/-! ### Argument kinds of `LinuxShell.escape` and a one-word reader (used by `Spec.C01Q`) -/
+
+/-- one argument of `Bash.escape` / `Ash.escape` (tbot/machine/linux/bash.py, ash.py) -/
+inductive Arg where
+  /-- a Python `str`, or a `linux.Path` (its `at_host` string): `shlex.quote` -/
+  | str (s : Bytes)
+  /-- `linux.Raw(s)` and the static tokens `Pipe`, `Then`, `AndThen`, `OrElse`, `Background`
+      (tbot/machine/linux/special.py): passed verbatim -/
+  | raw (s : Bytes)
+  /-- the `_Stdio` redirections: `pre ++ shlex.quote(path) ++ post` -/
+  | redir (pre : Bytes) (p : Bytes) (post : Bytes)
+  /-- any other Python object: `TypeError` -/
+  | other
+  deriving Repr, DecidableEq
+
+/-- the text one argument contributes to the command line (`none`: `TypeError`) -/
+def Arg.render : Arg → Option Bytes
+  | .str s => some (shlexQuote s)
+  | .raw s => some s
+  | .redir pre p post => some (pre ++ shlexQuote p ++ post)
+  | .other => none
+
+/-- `Bash.escape(*args)` / `Ash.escape(*args)`; `none` = `TypeError` -/
+def escapeArgs (args : List Arg) : Option Bytes := (args.mapM Arg.render).map joinSp
+
+/-- the bytes of an argument that come from the caller or from the token table (what can carry a
+    black-listed byte, a CR or an LF) -/
+def Arg.payload : Arg → Bytes
+  | .str s => s
+  | .raw s => s
+  | .redir pre p post => pre ++ p ++ post
+  | .other => []
+
+/-- `any(b in blacklist for b in data)` — the test `Channel.send` applies -/
+def forbidden (bl : Bytes) (data : Bytes) : Bool := data.any (fun c => bl.contains c)
+
+/-- reads ONE shell word: quoting state, word so far, input.  Result: the word and what follows
+    it (`none`: the input ended with the word; `some r`: an unquoted blank ended it, `r` follows).
+    `none` on every hazard, exactly like `split`. -/
+def wordAux : QS → Bytes → Bytes → Option (Bytes × Option Bytes)
+  | .U, w, [] => some (w, none)
+  | .S, _, [] => none
+  | .D, _, [] => none
+  | .U, w, c :: cs =>
+    if c == SP then some (w, some cs)
+    else if c == SQ then wordAux .S w cs
+    else if c == DQ then wordAux .D w cs
+    else if safeByte c then wordAux .U (w ++ [c]) cs
+    else none
+  | .S, w, c :: cs =>
+    if c == SQ then wordAux .U w cs else wordAux .S (w ++ [c]) cs
+  | .D, w, c :: cs =>
+    if c == DQ then wordAux .U w cs
+    else if dqOk c then wordAux .D (w ++ [c]) cs
+    else none
+
+/-- the first word of a command line that starts with a word (not with a blank, not empty) -/
+def firstWord : Bytes → Option (Bytes × Option Bytes)
+  | [] => none
+  | c :: cs => if c == SP then none else wordAux .U [] (c :: cs)
+
+/-- what a command line must consist of, position by position -/
+inductive Atom where
+  /-- literal text, directly followed by the next atom (redirection operator) -/
+  | pre (t : Bytes)
+  /-- literal text, followed by one blank or the end of the line -/
+  | lit (t : Bytes)
+  /-- text that the shell reads as exactly the word `s`, followed by one blank or the end -/
+  | word (s : Bytes)
+  deriving Repr, DecidableEq
+
+/-- expected shape of one argument; a redirection suffix (`" 2>&1"`) starts with the separating
+    blank, which the preceding `word` atom accounts for -/
+def Arg.atoms : Arg → List Atom
+  | .str s => [.word s]
+  | .raw s => [.lit s]
+  | .redir pre p post => if post.isEmpty then [.pre pre, .word p] else [.pre pre, .word p, .lit (post.drop 1)]
+  | .other => []
+
+/-- does the command line `l` consist of exactly these atoms, single blanks between them?
+    Parameterised by the word reader so that the U-Boot check can reuse it. -/
+def segCheck (fw : Bytes → Option (Bytes × Option Bytes)) : List Atom → Bytes → Bool
+  | [], l => l.isEmpty
+  | .pre t :: rest, l => t.isPrefixOf l && segCheck fw rest (l.drop t.length)
+  | .lit t :: rest, l =>
+    t.isPrefixOf l &&
+      (match rest, l.drop t.length with
+       | [], [] => true
+       | [], _ :: _ => false
+       | _ :: _, [] => false
+       | _ :: _, c :: l' => c == SP && segCheck fw rest l')
+  | .word s :: rest, l =>
+    match fw l with
+    | none => false
+    | some (w, r) =>
+      w == s &&
+        (match rest, r with
+         | [], none => true
+         | [], some _ => false
+         | _ :: _, none => false
+         | _ :: _, some l' => segCheck fw rest l')
 
 end Quote
